@@ -59,13 +59,35 @@ struct Runner {
   long long bruteLimit;
   explicit Runner(vh::Out &o, long long bl) : out(o), bruteLimit(bl) {}
 
+  // Reuse of one object: after clear() the legalizer must behave like a fresh one on the same segment.
+  void runReuse(const std::string &id, const Inst &first, const std::vector<std::vector<std::pair<long long, long long>>> &later) {
+    RowLegalizer leg(first.b, first.e);
+    out.ops << "case " << id << "\n";
+    out.impl << "case " << id << "\n";
+    out.ops << "new " << first.b << " " << first.e << "\n";
+    Inst cur = first;
+    for (size_t round = 0; round <= later.size(); ++round) {
+      if (round > 0) {
+        leg.clear();
+        out.ops << "clear\n";
+        cur.cells = later[round - 1];
+        out.count("rounds_after_clear");
+      }
+      runOn(leg, id, cur, nullptr, "after " + std::to_string(round) + " clear(): ");
+    }
+  }
+
   void run(const std::string &id, const Inst &in, vh::Rng *rng) {
-    vh::setCase(id, in.str());
-    out.evaluations++;
     out.ops << "case " << id << "\n";
     out.impl << "case " << id << "\n";
     out.ops << "new " << in.b << " " << in.e << "\n";
     RowLegalizer leg(in.b, in.e);
+    runOn(leg, id, in, rng, "");
+  }
+
+  void runOn(RowLegalizer &leg, const std::string &id, const Inst &in, vh::Rng *rng, const std::string &pfx) {
+    vh::setCase(id, pfx + in.str());
+    out.evaluations++;
     long long sumCost = 0;
     bool moved = false;
     std::vector<int> pl;
@@ -206,6 +228,30 @@ int main(int argc, char **argv) {
     Inst in = randomInst(g, big);
     r.run(std::string(big ? "m" : "r") + std::to_string(i), in, &g);
     out.count(big ? "magnitude_2^22" : "random_small");
+  }
+  // object reuse across clear(): the same segment, two or three unrelated insertion sequences
+  long long nu = a.thorough() ? 60000 : (a.search() ? 20000 : 6000);
+  for (long long i = 0; i < nu; ++i) {
+    vh::Rng g = vh::Rng::forCase(a.seed, 5000000 + i);
+    bool big = (i % 4 == 3);
+    Inst first = randomInst(g, big);
+    long long L = first.e - first.b;
+    std::vector<std::vector<std::pair<long long, long long>>> later;
+    int rounds = g.range(1, 2);
+    for (int rd = 0; rd < rounds; ++rd) {
+      Inst other = randomInst(g, big);
+      std::vector<std::pair<long long, long long>> cells;
+      long long used = 0;
+      for (auto &c : other.cells) {
+        if (used + c.first > L) break;
+        cells.push_back({c.first, c.second - other.b + first.b});
+        used += c.first;
+      }
+      if (cells.empty()) cells.push_back({1, first.b});
+      later.push_back(cells);
+    }
+    r.runReuse("u" + std::to_string(i), first, later);
+    out.count("reuse_after_clear_cases");
   }
   out.finish();
   return 0;
